@@ -13,12 +13,18 @@ EXTENDS Integers, Sequences, FiniteSets, TLC, Json
 CONSTANTS MaxSteps, Kinds
 
 AppSlots == {"api", "block", "storage", "bank", "wasm", "custom", "staking", "distribution", "ibc", "gov", "stargate"}
+(* AppBuilder steps: one per slot, plus steps that supply a boundary VALUE for the slot (a block of height 0,
+   of time 0, with an empty chain id; a storage that already holds data): "exactly what was supplied"
+   does not depend on what the value looks like *)
+AppSteps == AppSlots \cup {"block_h0", "block_t0", "block_c0", "storage_data"}
 (* ContractWrapper steps and the slot each one fills *)
 WrapSteps == {"sudo", "sudo_empty", "reply", "reply_empty", "migrate", "migrate_empty", "checksum"}
 WrapSlots == {"sudo", "reply", "migrate", "checksum"}
 SlotOf(step) == CASE step \in {"sudo", "sudo_empty"} -> "sudo"
                   [] step \in {"reply", "reply_empty"} -> "reply"
                   [] step \in {"migrate", "migrate_empty"} -> "migrate"
+                  [] step \in {"block_h0", "block_t0", "block_c0"} -> "block"
+                  [] step = "storage_data" -> "storage"
                   [] OTHER -> step
 
 VARIABLES kind,     \* "app" | "wrapper"
@@ -43,7 +49,7 @@ Build == /\ kind = "app" /\ ~built
          /\ built' = TRUE /\ inits' = inits + 1
          /\ UNCHANGED <<kind, slots, steps>>
 
-Next == \/ (kind = "app" /\ \E s \in AppSlots : With(s))
+Next == \/ (kind = "app" /\ \E s \in AppSteps : With(s))
         \/ (kind = "wrapper" /\ \E s \in WrapSteps : With(s))
         \/ Build
 
